@@ -9,6 +9,7 @@
 -/
 import Kopf.Lemmas.C09_Timed
 import Kopf.Lemmas.C09_Timer
+import Kopf.Lemmas.C09_Escort
 namespace Kopf.C09
 
 def cfgEx0 : Cfg := { backoff := some 64, timeout := some 128, polling := 3840 }
@@ -441,8 +442,10 @@ theorem gone_unmarked_not_stopped (c : Cfg) (s : St) (i : Inst) (inp : CycIn) (h
     (hd : inp.deleted = true) (hm : inp.marked = false) (hmatch : inp.matching = true) (hp : inp.paused = false) :
     (cycle c inp s).1.known = false ∧ (cycle c inp s).1.run = some i ∧ i.reasons = [] ∧
       Orphan (cycle c inp s).1 := by
-  have hrun : (cycle c inp s).1.run = some i := by simp [cycle, hd, hm, hmatch, hf, hi, hp, stopIf]
-  have hkn : (cycle c inp s).1.known = false := by simp [cycle, hd, hm, hmatch, hf, hi, hp, stopIf]
+  have hrun : (cycle c inp s).1.run = some i := by
+    simp [cycle_unfold, forgotten, matchVisits, hd, hm, hmatch, hf, hi, hp, stopIf, escorted, St.flaggedMismatch, Inst.has, hclean.1]
+  have hkn : (cycle c inp s).1.known = false := by
+    simp [cycle_unfold, forgotten, matchVisits, hd, hm, hmatch, hf, hi, hp, stopIf, escorted, St.flaggedMismatch, Inst.has, hclean.1]
   refine ⟨hkn, hrun, hclean.1, hkn, ?_⟩
   intro k hk
   rw [hrun] at hk; cases hk; exact hclean
@@ -474,23 +477,217 @@ example : runs cfgEx0 (St.init 0) [.cycle goneEv, .tick 320, .cycle { goneEv wit
     runs cfgEx0 (St.init 0) [.cycle goneEv, .tick 320, .cycle { goneEv with deleted := true }, .kBegin .deleted, .tick 65] = none :=
   ⟨by decide, ⟨_, _, rfl, by decide, rfl, by decide, by decide, by decide⟩, by decide⟩
 
-/-! ## what the cycles do NOT do once the object matches again (findings F14, F15: open)
+/-! ## after a filter mismatch: escorted to the end whatever the object does, then replaced (F14 repaired, F15 bounded)
 
-  The staged termination after a filter mismatch lives in `match_daemons`, which visits the daemons that do NOT
-  match in the CURRENT cycle. The stop flag cannot be taken back; but when the object matches again while the flagged
-  instance is still running, no cycle visits it any more. -/
+  The staged termination after a filter mismatch lives in `match_daemons`. Since /repo ef26531 (tree variant
+  `escorts`, tied to the AST: `Tie.spawn_act_eq`, `Tie.match_visits_eq`, `Tie.revisit_now_eq`, and compared on every observed cycle) it visits the daemons whose
+  handler is not selected in the current cycle AND the daemons that carry FILTERS_MISMATCH: the stop flag cannot be
+  taken back, so an instance once asked to stop for a mismatch gets one visit of `stop_daemons(FILTERS_MISMATCH)` in
+  EVERY cycle of the unmarked object — matching again or not — until it has ended; `spawn_daemons` answers a selected
+  handler whose previous instance is still stopping (after a mismatch or a pause) with a re-check delay
+  (`cancellation_polling`), and `match_daemons` with delay 0 when the instance has ended inside its visit.
+  What links a returned delay to the next cycle (sleep, touch-patch, event) is outside this model: the oracle's
+  clauses O14/O15 judge it on every simulated history. -/
 
-/-- F14, for EVERY state with a running instance (flagged or not, in whatever stage), every configuration: a cycle of
-    an unmarked, matching object while the operator is neither paused nor the event a DELETED one changes NOTHING and
-    returns NO delay: the flagged instance is not signalled, cancelled or abandoned, nothing is spawned (its id is
-    taken), and no further cycle is scheduled. -/
-theorem rematched_not_escalated (c : Cfg) (s : St) (i : Inst) (inp : CycIn) (hi : s.run = some i) (hf : s.forever = false)
-    (hm : inp.matching = true) (hmk : inp.marked = false) (hp : inp.paused = false) (hd : inp.deleted = false) :
-    cycle c inp s = (s, []) := by
-  simp [cycle, stopIf, hi, hf, hm, hmk, hp, hd]
+/-- ESCORTED WHATEVER THE OBJECT DOES. For every state with a running instance that carries FILTERS_MISMATCH (in whatever
+    stage, whatever else it carries), every cycle of an unmarked object (paused or not, DELETED or not): the resulting
+    state is THE SAME whether the body matches again or not, and every delay the cycle returns for the still
+    mismatching object is returned for the matching one as well. -/
+theorem escorted_whatever_matching (c : Cfg) (s : St) (i : Inst) (inp : CycIn) (he : c.escorts = true)
+    (hi : s.run = some i) (hmm : Reason.mismatch ∈ i.reasons) (hmk : inp.marked = false) :
+    (cycle c inp s).1 = (cycle c { inp with matching := false } s).1 ∧
+    ∀ d ∈ (cycle c { inp with matching := false } s).2, d ∈ (cycle c inp s).2 := by
+  rw [cycle_flagged inp he hi hmm hmk, cycle_flagged { inp with matching := false } he hi hmm hmk]
+  have hf : forgotten { inp with matching := false } s = forgotten inp s := rfl
+  simp only [hf, true_and]
+  intro d hd
+  simp only [Bool.false_and, Bool.false_eq_true, if_false, false_and, List.nil_append, List.append_nil, List.mem_append] at hd
+  simp only [List.mem_append]
+  rcases hd with hd | hd
+  · exact Or.inl (Or.inl (Or.inr hd))
+  · exact Or.inr hd
 
-/-- only a processing cycle creates an instance: nothing else (time, the killer, the instance ending) makes up for a
-    start that was skipped because the previous instance was still there (F15) -/
+/-- THE STAGES, VISIT BY VISIT, WHATEVER `inp.matching`. A cycle of an unmarked object at flag age `a = now - when` of an
+    instance that carries FILTERS_MISMATCH leaves it ended, or:
+    * `a < backoff`: signalled, and the cycle returns the rest of the backoff;
+    * backoff over, `a < backoff + timeout`: CANCELLED (`task.cancel()` called), and the cycle returns the rest of the timeout;
+    * `backoff + timeout ≤ a`: ABANDONED;
+    * no `cancellation_timeout`, backoff over: the cycle returns `cancellation_polling`.
+    Each returned delay is the exact time to the next stage: the object stays on the schedule until the instance has
+    ended or is abandoned. -/
+theorem mismatch_stages_visited (c : Cfg) (s : St) (i : Inst) (inp : CycIn) (w : Tick) (h : Reach c s) (he : c.escorts = true)
+    (hi : s.run = some i) (hmm : Reason.mismatch ∈ i.reasons) (hw : i.when = some w) (hmk : inp.marked = false) :
+    (∀ b, c.backoff = some b → s.now - w < b →
+      (cycle c inp s).1.run = none ∨
+      ∃ i', (cycle c inp s).1.run = some i' ∧ Reason.signalled ∈ i'.reasons ∧ (b - (s.now - w)) ∈ (cycle c inp s).2) ∧
+    (∀ t, c.timeout = some t → (∀ b, c.backoff = some b → b ≤ s.now - w) → s.now - w < t + c.b0 →
+      (cycle c inp s).1.run = none ∨
+      ∃ i', (cycle c inp s).1.run = some i' ∧ Reason.cancelled ∈ i'.reasons ∧ i'.cancelAt.isSome = true ∧
+        (t + c.b0 - (s.now - w)) ∈ (cycle c inp s).2) ∧
+    (∀ t, c.timeout = some t → (∀ b, c.backoff = some b → b ≤ s.now - w) → t + c.b0 ≤ s.now - w →
+      (cycle c inp s).1.run = none ∨
+      ∃ i', (cycle c inp s).1.run = some i' ∧ Reason.abandoned ∈ i'.reasons ∧ i'.abandonAt.isSome = true) ∧
+    (c.timeout = none → (∀ b, c.backoff = some b → b ≤ s.now - w) →
+      (cycle c inp s).1.run = none ∨ ((cycle c inp s).1.run.isSome = true ∧ c.polling ∈ (cycle c inp s).2)) := by
+  have hinv := reach_inv h
+  have hage : age i s.now = s.now - w := by simp [age, hw]
+  have hv := visit_spec (hinv.inst i hi) .mismatch inp.ex1 hmm
+  obtain ⟨gone, alive⟩ := cycle_escort_spec hinv inp he hi hmm hmk
+  generalize stopOne c s.now .mismatch i inp.ex1 = out at hv gone alive
+  refine ⟨?_, ?_, ?_, ?_⟩
+  · intro b hb hlt
+    cases hv with
+    | gone j => exact Or.inl (gone j rfl).1
+    | signalled i' b' hb' _ hs m =>
+      rw [hb] at hb'; cases hb'
+      obtain ⟨hrun, hd⟩ := alive _ _ rfl
+      rcases hrun with hn | ⟨i'', hr, m2⟩
+      · exact Or.inl hn
+      · exact Or.inr ⟨i'', hr, m2.reasons _ hs, hage ▸ hd _ rfl⟩
+    | cancelled i' t ht hge _ _ _ _ => have := hge b hb; rw [hage] at this; exact absurd this (by tick_omega)
+    | abandoned i' t ht hgb _ _ _ _ => have := hgb b hb; rw [hage] at this; exact absurd this (by tick_omega)
+    | polled hto hge => have := hge b hb; rw [hage] at this; exact absurd this (by tick_omega)
+  · intro t ht hge hlt
+    cases hv with
+    | gone j => exact Or.inl (gone j rfl).1
+    | signalled i' b hb hlt' _ _ => rw [hage] at hlt'; exact absurd (hge b hb) (by tick_omega)
+    | cancelled i' t' ht' _ _ hs hc m =>
+      rw [ht] at ht'; cases ht'
+      obtain ⟨hrun, hd⟩ := alive _ _ rfl
+      rcases hrun with hn | ⟨i'', hr, m2⟩
+      · exact Or.inl hn
+      · refine Or.inr ⟨i'', hr, m2.reasons _ hs, ?_, hage ▸ hd _ rfl⟩
+        obtain ⟨tc, htc⟩ := Option.isSome_iff_exists.mp hc
+        rw [m2.canc tc htc]; rfl
+    | abandoned i' t' ht' _ hge' _ _ _ => rw [ht] at ht'; cases ht'; rw [hage] at hge'; exact absurd hge' (by tick_omega)
+    | polled hto _ => rw [hto] at ht; cases ht
+  · intro t ht hge hle
+    cases hv with
+    | gone j => exact Or.inl (gone j rfl).1
+    | signalled i' b hb hlt' _ _ => rw [hage] at hlt'; exact absurd (hge b hb) (by tick_omega)
+    | cancelled i' t' ht' _ hlt' _ _ _ => rw [ht] at ht'; cases ht'; rw [hage] at hlt'; exact absurd hle (by tick_omega)
+    | abandoned i' t' ht' _ _ hs ha m =>
+      obtain ⟨hrun, _⟩ := alive _ _ rfl
+      rcases hrun with hn | ⟨i'', hr, m2⟩
+      · exact Or.inl hn
+      · refine Or.inr ⟨i'', hr, m2.reasons _ hs, ?_⟩
+        obtain ⟨ta, hta⟩ := Option.isSome_iff_exists.mp ha
+        rw [m2.aban ta hta]; rfl
+    | polled hto _ => rw [hto] at ht; cases ht
+  · intro hto hge
+    cases hv with
+    | gone j => exact Or.inl (gone j rfl).1
+    | signalled i' b hb hlt' _ _ => rw [hage] at hlt'; exact absurd (hge b hb) (by tick_omega)
+    | cancelled i' t' ht' _ _ _ _ _ => rw [hto] at ht'; cases ht'
+    | abandoned i' t' ht' _ _ _ _ _ => rw [hto] at ht'; cases ht'
+    | polled _ _ =>
+      obtain ⟨hrun, hd⟩ := alive _ _ rfl
+      rcases hrun with hn | ⟨i'', hr, _⟩
+      · exact Or.inl hn
+      · exact Or.inr ⟨by rw [hr]; rfl, hd _ rfl⟩
+
+/-- THE FLAG IS NEVER LOST, WHATEVER HAPPENS IN BETWEEN. From any reachable state with a running instance, after ANY label
+    list (re-matches, mismatches, pauses, resumes, the killer's stages, time) during which nothing was spawned, what runs is
+    that same instance, with every reason it carried and the time of its stop flag unchanged. So an instance once flagged
+    for a mismatch at `w` meets the hypotheses of `mismatch_stages_visited` in every later cycle: each one visits it at age
+    `now - w`, whether the object matches by then or not. -/
+theorem mismatch_flag_is_kept (c : Cfg) (s s' : St) (i i' : Inst) (ls : List Label) (h : Reach c s) (hi : s.run = some i)
+    (hr : runs c s ls = some s') (hsame : s'.spawns = s.spawns) (hi' : s'.run = some i') :
+    (∀ x ∈ i.reasons, x ∈ i'.reasons) ∧ (∀ w, i.when = some w → i'.when = some w) ∧ i'.since = i.since ∧
+    (∀ t, i.cancelAt = some t → i'.cancelAt = some t) ∧ (∀ t, i.abandonAt = some t → i'.abandonAt = some t) := by
+  have m := runs_same_instance ls (reach_inv h) hr hsame hi hi'
+  exact ⟨m.reasons, m.when, m.since, m.canc, m.aban⟩
+
+/-- TAKEN THROUGH THE STAGES WHATEVER THE LATER HISTORY OF THE OBJECT. An instance flagged for a mismatch at `w`; any label
+    list later, still the same instance: a cycle of the (unmarked) object then — matching again or not — leaves it ended, or
+    CANCELLED if the backoff is over and there is a timeout, ABANDONED if backoff + timeout are over. -/
+theorem escorted_to_the_end (c : Cfg) (s s' : St) (i i' : Inst) (ls : List Label) (inp : CycIn) (w t : Tick) (h : Reach c s)
+    (he : c.escorts = true) (hi : s.run = some i) (hmm : Reason.mismatch ∈ i.reasons) (hw : i.when = some w)
+    (hr : runs c s ls = some s') (hsame : s'.spawns = s.spawns) (hi' : s'.run = some i')
+    (hmk : inp.marked = false) (hto : c.timeout = some t) (hbo : ∀ b, c.backoff = some b → b ≤ s'.now - w) :
+    (cycle c inp s').1.run = none ∨
+    ∃ j, (cycle c inp s').1.run = some j ∧ Reason.mismatch ∈ j.reasons ∧
+      (j.cancelAt.isSome = true ∨ j.abandonAt.isSome = true) ∧ (t + c.b0 ≤ s'.now - w → j.abandonAt.isSome = true) := by
+  obtain ⟨hre, hwh, _, _, _⟩ := mismatch_flag_is_kept c s s' i i' ls h hi hr hsame hi'
+  obtain ⟨t0, ls0, hr0⟩ := h
+  have h' : Reach c s' := ⟨t0, ls0 ++ ls, by rw [runs_append, hr0]; exact hr⟩
+  obtain ⟨_, hc, ha, _⟩ := mismatch_stages_visited c s' i' inp w h' he hi' (hre _ hmm) (hwh w hw) hmk
+  have hkeep : ∀ j, (cycle c inp s').1.run = some j → Reason.mismatch ∈ j.reasons := fun j hj =>
+    ((cycle_spec (reach_inv h') inp).2.2.2.2.2.1 i' j hi' hj).reasons _ (hre _ hmm)
+  by_cases hlt : s'.now - w < t + c.b0
+  · rcases hc t hto hbo hlt with hn | ⟨j, hj, _, hca, _⟩
+    · exact Or.inl hn
+    · exact Or.inr ⟨j, hj, hkeep j hj, Or.inl hca, fun hge => absurd hlt (by tick_omega)⟩
+  · have hge : t + c.b0 ≤ s'.now - w := by tick_omega
+    rcases ha t hto hbo hge with hn | ⟨j, hj, _, hab⟩
+    · exact Or.inl hn
+    · exact Or.inr ⟨j, hj, hkeep j hj, Or.inr hab, fun _ => hab⟩
+
+/-- THE DEFERRED START STAYS ON THE SCHEDULE (F15: bounded). A cycle of an unmarked, matching object whose handler is
+    selected while its previous instance is still stopping — asked to stop for a mismatch OR by an operator pause, in
+    whatever stage — starts nothing (never two instances) and returns `cancellation_polling`: the processing comes back
+    to start the new instance. -/
+theorem deferred_start_is_rescheduled (c : Cfg) (s : St) (i : Inst) (inp : CycIn) (h : Reach c s) (he : c.escorts = true)
+    (hi : s.run = some i) (hne : i.reasons ≠ []) (hmk : inp.marked = false) (hmatch : inp.matching = true)
+    (hf : s.forever = false) (hnb : blockedIn c inp s = false) :
+    c.polling ∈ (cycle c inp s).2 ∧ (cycle c inp s).1.spawns = s.spawns := by
+  refine ⟨cycle_defers_with_delay inp he hi hne hmk (by simp [hmatch, hf]) hnb, ?_⟩
+  have := (cycle_spec (reach_inv h) inp).2.2.2.2.1
+  simpa [hi] using this
+
+/-- An instance that has ended inside the visit of `match_daemons` while its handler is selected again (the spawning of
+    this very cycle has skipped it: it was still there): nothing runs after the cycle, the end is NOT remembered as an
+    exit on its own, and the cycle asks for an immediate re-visit (delay 0). -/
+theorem ended_in_visit_asks_revisit (c : Cfg) (s : St) (i j : Inst) (inp : CycIn) (h : Reach c s) (he : c.escorts = true)
+    (hi : s.run = some i) (hmm : Reason.mismatch ∈ i.reasons) (hmk : inp.marked = false) (hmatch : inp.matching = true)
+    (hf : s.forever = false) (hend : stopOne c s.now .mismatch i inp.ex1 = .ended j) :
+    (cycle c inp s).1.run = none ∧ (cycle c inp s).1.forever = false ∧ (0 : Tick) ∈ (cycle c inp s).2 := by
+  obtain ⟨h1, h2, h3⟩ := (cycle_escort_spec (reach_inv h) inp he hi hmm hmk).1 j hend
+  exact ⟨h1, h2.trans hf, h3 (by simp [hmatch, hf])⟩
+
+/-- REPLACED ONCE IT HAS ENDED. An instance that was asked to stop (for whatever reason) and ends is not remembered as
+    having exited on its own, and the next cycle of the live, unmarked, matching object — the one the returned delay
+    schedules, or any other — starts a new instance: exactly one more. -/
+theorem replaced_after_end (c : Cfg) (s s1 : St) (i : Inst) (inp : CycIn) (h : Reach c s) (hi : s.run = some i)
+    (hne : i.reasons ≠ []) (hf : s.forever = false) (hs : step c s .exit = some s1)
+    (hk : s.known = true) (hx : s.exitAt = none) (hdel : inp.deleted = false) (hm : inp.marked = false)
+    (hmatch : inp.matching = true) :
+    s1.run = none ∧ s1.forever = false ∧ ∃ s2, step c s1 (.cycle inp) = some s2 ∧ s2.spawns = s.spawns + 1 := by
+  have h1 := reach_step h _ hs
+  simp only [step, hi, Option.some.injEq] at hs
+  subst hs
+  have hie : i.reasons.isEmpty = false := by
+    cases hr : i.reasons with
+    | nil => exact absurd hr hne
+    | cons _ _ => rfl
+  have hf1 : (endInst s i).forever = false := by simp [endInst, hf, hie]
+  refine ⟨rfl, hf1, ?_⟩
+  exact started_on_match c (endInst s i) inp h1 hk hx hdel hm hmatch hf1 rfl
+
+/-- …and when it has ended inside a visit while matching: the cycle returns delay 0, and ONE further cycle of the matching
+    object starts the new instance. -/
+theorem replaced_within_one_further_cycle (c : Cfg) (s : St) (i j : Inst) (inp inp2 : CycIn) (h : Reach c s)
+    (he : c.escorts = true) (hk : s.known = true) (hx : s.exitAt = none) (hi : s.run = some i)
+    (hmm : Reason.mismatch ∈ i.reasons) (hf : s.forever = false)
+    (hmk : inp.marked = false) (hd1 : inp.deleted = false) (hmatch : inp.matching = true)
+    (hend : stopOne c s.now .mismatch i inp.ex1 = .ended j)
+    (hm2 : inp2.marked = false) (hd2 : inp2.deleted = false) (hmatch2 : inp2.matching = true) :
+    ∃ s1 s2, step c s (.cycle inp) = some s1 ∧ (0 : Tick) ∈ (cycle c inp s).2 ∧ s1.run = none ∧
+      step c s1 (.cycle inp2) = some s2 ∧ s2.spawns = s.spawns + 1 := by
+  have hs1 : step c s (.cycle inp) = some (cycle c inp s).1 := by simp [step, hk]
+  obtain ⟨hrun, hfor, hz⟩ := ended_in_visit_asks_revisit c s i j inp h he hi hmm hmk hmatch hf hend
+  have h1 := reach_step h _ hs1
+  have spec := cycle_spec (reach_inv h) inp
+  have hk1 : (cycle c inp s).1.known = true := by rw [spec.2.2.2.1, hk, hd1]; rfl
+  have hx1 : (cycle c inp s).1.exitAt = none := by rw [(cycle_frame (reach_inv h) inp).2.2.2.2.1]; exact hx
+  have hsp1 : (cycle c inp s).1.spawns = s.spawns := by
+    have := spec.2.2.2.2.1
+    simpa [hi] using this
+  obtain ⟨s2, hs2, hsp2⟩ := started_on_match c _ inp2 h1 hk1 hx1 hd2 hm2 hmatch2 hfor hrun
+  exact ⟨_, s2, hs1, hz, hrun, hs2, by rw [hsp2, hsp1]⟩
+
+/-- only a processing cycle creates an instance — the one that the returned delay schedules, in the tree as it is;
+    nothing else (time, the killer, the instance ending) starts anything -/
 theorem only_cycles_spawn (c : Cfg) (s s' : St) (l : Label) (hl : ∀ inp, l ≠ .cycle inp) (hs : step c s l = some s') :
     s'.spawns = s.spawns := by
   cases l with
@@ -507,31 +704,94 @@ theorem only_cycles_spawn (c : Cfg) (s s' : St) (l : Label) (hl : ∀ inp, l ≠
   | kCancel st => simp only [step] at hs; split at hs <;> (try split at hs) <;> simp_all <;> (subst hs; rfl)
   | kAbandon st => simp only [step] at hs; split at hs <;> (try split at hs) <;> simp_all <;> (subst hs; rfl)
 
-/-- witness of F14 (corpus/C09/F14.json replays it on the code): backoff 32, timeout 64. Spawned at 64; the label stops
-    matching at 192: flagged + signalled, delay 32; it matches again at 208, inside the backoff: nothing happens, no
-    delay — and 10 minutes and another matching event later the instance still runs: flagged, never cancelled, never
+section EscortExamples
+
+/-- the history of corpus/C09/F14.json in the tree as it is (backoff 32, timeout 64): spawned at 64, flagged + signalled at
+    192 (the label stops matching), matching again at 208 — inside the backoff: the cycle returns the re-check of the
+    skipped start and the rest of the backoff; visited at 224: cancelled; at 288: abandoned; it ends at 300; the next
+    cycle starts the second instance. -/
+def rematchRun : List Label :=
+  [.tick 64, .cycle evEx0, .tick 128, .cycle { evEx0 with matching := false }, .tick 16, .cycle evEx0, .tick 16, .cycle evEx0,
+   .tick 64, .cycle evEx0, .tick 12, .exit, .tick 100, .cycle evEx0]
+
+example : ∃ s i, runs cfgP (St.init 0) (rematchRun.take 5) = some s ∧ s.run = some i ∧ Reason.mismatch ∈ i.reasons ∧
+    i.when = some 192 ∧ s.now = 208 ∧ (cycle cfgP evEx0 s).2 = [3840, 16] ∧ cfgP.escorts = true :=
+  ⟨_, _, rfl, rfl, by decide, by decide, by decide, by decide, rfl⟩
+
+example : ∃ s i, runs cfgP (St.init 0) (rematchRun.take 10) = some s ∧ s.run = some i ∧
+    i.reasons = [.mismatch, .signalled, .cancelled, .abandoned] ∧ i.cancelAt = some 224 ∧ i.abandonAt = some 288 ∧
+    s.spawns = 1 ∧ (cycle cfgP evEx0 s).2 = [3840] :=
+  ⟨_, _, rfl, rfl, by decide, by decide, by decide, by decide, by decide⟩
+
+example : ∃ s i, runs cfgP (St.init 0) rematchRun = some s ∧ s.run = some i ∧ i.reasons = [] ∧ i.since = 400 ∧
+    s.spawns = 2 ∧ s.live = 1 ∧ s.forever = false :=
+  ⟨_, _, rfl, rfl, by decide, by decide, by decide, by decide, by decide⟩
+
+/-- the hypotheses of `mismatch_flag_is_kept` / `escorted_to_the_end` are met: flagged at 192 (`s`), a re-match and time
+    later (`s'`, at 224, the backoff is over: 32 ≤ 224 - 192) it is the same instance, and the cycle there cancels it -/
+example : ∃ s s' i i' j, runs cfgP (St.init 0) (rematchRun.take 4) = some s ∧ s.run = some i ∧ Reason.mismatch ∈ i.reasons ∧
+    i.when = some 192 ∧ runs cfgP s [.tick 16, .cycle evEx0, .tick 16] = some s' ∧ s'.spawns = s.spawns ∧ s'.run = some i' ∧
+    s'.now = 224 ∧ (cycle cfgP evEx0 s').1.run = some j ∧ j.cancelAt = some 224 :=
+  ⟨_, _, _, _, _, rfl, rfl, by decide, by decide, rfl, by decide, rfl, by decide, rfl, by decide⟩
+
+/-- the instance obeys the cancellation at once (it has ended when `stop_daemons` looks again): the visit at 224 returns
+    delay 0 besides the re-check, and one further cycle in the same instant starts the second instance -/
+example : ∃ s, runs cfgP (St.init 0) (rematchRun.take 7) = some s ∧
+    (cycle cfgP { evEx0 with ex1 := { d0 := false, d1 := false, d2 := true } } s).2 = [3840, 0] ∧
+    (∃ s2, runs cfgP s [.cycle { evEx0 with ex1 := { d0 := false, d1 := false, d2 := true } }, .cycle evEx0] = some s2 ∧
+      s2.spawns = 2 ∧ s2.live = 1 ∧ s2.now = 224) :=
+  ⟨_, rfl, by decide, _, rfl, by decide, by decide, by decide⟩
+
+/-- the pause path: flagged by the killer at the round at 100, resumed at 110 while the daemon is still stopping: the
+    re-listing's cycle starts nothing and returns the re-check delay; the killer's coroutine goes on through the stages
+    (cancelled at 132); the daemon ends at 140; the cycle the delay has scheduled starts the new instance -/
+example : ∃ s, runs cfgP (St.init 0) [.cycle evEx0, .tick 100, .pause, .kBegin .pausing, .kSignal 100, .tick 10, .resume] = some s ∧
+    (cycle cfgP evEx0 s) = (s, [3840]) ∧
+    (∃ s2 i, runs cfgP s [.cycle evEx0, .tick 22, .kCancel 100, .tick 8, .exit, .tick 3810, .cycle evEx0] = some s2 ∧
+      s2.run = some i ∧ i.reasons = [] ∧ s2.spawns = 2 ∧ s2.now = 3950) :=
+  ⟨_, rfl, by decide, _, _, rfl, rfl, by decide, by decide, by decide⟩
+
+end EscortExamples
+
+/-! ### HISTORICAL: the code before ef26531 (`escorts = false`; findings F14, F15) -/
+
+/-- HISTORICAL (finding F14, fixed by ef26531), for EVERY state with a running instance (flagged or not, in whatever stage),
+    every configuration of the old variant: a cycle of an unmarked, matching object while the operator is neither paused
+    nor the event a DELETED one changed NOTHING and returned NO delay: the flagged instance was not signalled, cancelled
+    or abandoned, nothing was spawned (its id is taken), and no further cycle was scheduled. -/
+theorem rematched_not_escalated (c : Cfg) (s : St) (i : Inst) (inp : CycIn) (hold : c.escorts = false) (hi : s.run = some i)
+    (hf : s.forever = false)
+    (hm : inp.matching = true) (hmk : inp.marked = false) (hp : inp.paused = false) (hd : inp.deleted = false) :
+    cycle c inp s = (s, []) := by
+  simp [cycle_unfold, forgotten, matchVisits, stopIf, escorted, hold, hi, hf, hm, hmk, hp, hd]
+
+/-- HISTORICAL witness of F14 (corpus/C09/F14.json is its regression): backoff 32, timeout 64. Spawned at 64; the label
+    stops matching at 192: flagged + signalled, delay 32; it matches again at 208, inside the backoff: nothing happened, no
+    delay — and 10 minutes and another matching event later the instance still ran: flagged, never cancelled, never
     abandoned, and still the only instance ever created. -/
 theorem rematch_witness :
-    ∃ s i, runs cfgP (St.init 0) [.tick 64, .cycle evEx0, .tick 128, .cycle { evEx0 with matching := false }, .tick 16,
-        .cycle evEx0, .tick 38400, .cycle evEx0] = some s ∧ s.run = some i ∧
+    ∃ s i, runs { cfgP with escorts := false } (St.init 0) [.tick 64, .cycle evEx0, .tick 128, .cycle { evEx0 with matching := false },
+        .tick 16, .cycle evEx0, .tick 38400, .cycle evEx0] = some s ∧ s.run = some i ∧
       i.reasons = [.mismatch, .signalled] ∧ i.when = some 192 ∧ i.cancelAt = none ∧ i.abandonAt = none ∧ s.spawns = 1 ∧
-      (cycle cfgP evEx0 s).2 = [] :=
+      (cycle { cfgP with escorts := false } evEx0 s).2 = [] :=
   ⟨_, _, rfl, rfl, by decide, by decide, by decide, by decide, by decide, by decide⟩
 
-/-- witness of F15 (corpus/C09/F15.json): no timeouts (polled). Flagged for a mismatch at 192, matching again at 224
-    (nothing spawned: the instance is still there); the instance ends at 384 — asked to stop, so not remembered as an
-    exit on its own — and 10 minutes later nothing runs for the matching object: one instance ever, none alive. -/
+/-- HISTORICAL witness of F15 (corpus/C09/F15.json is its regression): no timeouts (polled). Flagged for a mismatch at 192;
+    at 224 the object matches again: the old cycle started nothing (the instance is still there) and returned NO delay —
+    so when the instance ended at 384 (asked to stop: not remembered as an exit on its own) nothing was left to come back:
+    no instance for the matching object until an unrelated event. In the tree as it is the same cycle returns the re-check
+    delays, and the cycle they schedule starts the second instance. -/
 theorem deferred_start_witness :
-    ∃ s, runs { backoff := none, timeout := none, polling := 3840 } (St.init 0)
-        [.tick 64, .cycle evEx0, .tick 128, .cycle { evEx0 with matching := false }, .tick 32, .cycle evEx0, .tick 160, .exit,
-         .tick 38400] = some s ∧ s.run = none ∧ s.forever = false ∧ s.live = 0 ∧ s.spawns = 1 ∧ s.known = true :=
-  ⟨_, rfl, by decide, by decide, by decide, by decide, by decide⟩
-
-/-- …while the next event of the object, whenever it comes, does start it (the hypotheses of `started_on_match`) -/
-example : ∃ s, runs { backoff := none, timeout := none, polling := 3840 } (St.init 0)
-        [.tick 64, .cycle evEx0, .tick 128, .cycle { evEx0 with matching := false }, .tick 32, .cycle evEx0, .tick 160, .exit,
-         .tick 38400, .cycle evEx0] = some s ∧ s.spawns = 2 ∧ s.live = 1 :=
-  ⟨_, rfl, by decide, by decide⟩
+    ∃ s, runs { backoff := none, timeout := none, polling := 3840, escorts := false } (St.init 0)
+        [.tick 64, .cycle evEx0, .tick 128, .cycle { evEx0 with matching := false }, .tick 32] = some s ∧
+      cycle { backoff := none, timeout := none, polling := 3840, escorts := false } evEx0 s = (s, []) ∧
+      (∃ s', runs { backoff := none, timeout := none, polling := 3840, escorts := false } s
+          [.cycle evEx0, .tick 160, .exit, .tick 38400] = some s' ∧
+        s'.run = none ∧ s'.forever = false ∧ s'.live = 0 ∧ s'.spawns = 1 ∧ s'.known = true) ∧
+      (cycle { backoff := none, timeout := none, polling := 3840 } evEx0 s).2 = [3840, 3840] ∧
+      (∃ s', runs { backoff := none, timeout := none, polling := 3840 } s
+          [.cycle evEx0, .tick 160, .exit, .tick 3680, .cycle evEx0] = some s' ∧ s'.spawns = 2 ∧ s'.live = 1) :=
+  ⟨_, rfl, by decide, ⟨_, rfl, by decide, by decide, by decide, by decide, by decide⟩, by decide, ⟨_, rfl, by decide, by decide⟩⟩
 
 /-! ## stopping never crashes the operator
 
